@@ -197,7 +197,12 @@ PROBES = [b"<meta/charset=utf-8>", b"<meta charset=x-user-defined>", b"<meta cha
           b"<metax a='<meta charset=utf-8>'>", b"<a b='<meta charset=utf-8>'>", b"<!-- <meta charset=utf-8> -->",
           b"<!-- --><meta charset=utf-8>", b"<?x <meta charset=utf-8>?><meta charset=big5>", b"<meta charset=utf-8",
           b"<meta http-equiv=refresh content='charset=utf-8'>", b"<meta http-equiv=content-type content=charset=utf-8>",
-          b"<meta content=charset=utf-8 http-equiv=content-type>", b"<meta charset= utf-8 >", b"<meta charset = 'utf-8' >"]
+          b"<meta content=charset=utf-8 http-equiv=content-type>", b"<meta charset= utf-8 >", b"<meta charset = 'utf-8' >",
+          # quotes inside the content value: matched, unmatched (no declaration), mixed, empty
+          b'<meta http-equiv="Content-Type" content="text/html; charset=\'utf-8">', b"<meta http-equiv=content-type content='text/html; charset=\"koi8-r'>",
+          b'<meta http-equiv=content-type content="charset=\'utf-8\' x">', b'<meta http-equiv=content-type content="charset=\'\'">',
+          b"<meta http-equiv=content-type content='charset=\"utf-8 koi8-r\"'>", b'<meta content="charset = \'big5" http-equiv=content-type>',
+          b'<meta http-equiv=content-type content="charset=\'utf-8\'koi8-r">', b'<meta http-equiv=content-type content="charset=\' utf-8 \'">']
 
 
 def prescan_inputs(ctx):
